@@ -143,6 +143,9 @@ func (n *refNode) Field(r node.FieldRequest, hnd *node.ValueHandle) error {
 	}
 	if r.Write {
 		if r.Clear || hnd.Val == nil {
+			if sn.IsKey() {
+				return fmt.Errorf("refstore: the key leaf %s of a list entry cannot be unset", sn.Name)
+			}
 			delete(n.d.Leaves, sn.Name)
 			return nil
 		}
